@@ -89,7 +89,8 @@ func pemKey(k ed25519.PrivateKey) []byte {
 	return pem.EncodeToMemory(&pem.Block{Type: "PRIVATE KEY", Bytes: b})
 }
 
-var c19Kinds = []string{"valid", "other-ca", "self-signed", "wrong-name", "expired", "not-yet-valid", "intermediate-present", "intermediate-missing", "no-certificate", "expires-during-run"}
+var c19Kinds = []string{"valid", "other-ca", "self-signed", "wrong-name", "expired", "not-yet-valid", "intermediate-present", "intermediate-missing", "no-certificate", "expires-during-run",
+	"impostor-ca-then-genuine-leaf", "impostor-leaf-then-genuine-leaf"}
 
 type c19pki struct {
 	caCert, otherCA *x509.Certificate
@@ -131,6 +132,16 @@ func (p *c19pki) serverChain(kind string) *tls.Certificate {
 		}
 	case "no-certificate":
 		return nil
+	case "impostor-ca-then-genuine-leaf", "impostor-leaf-then-genuine-leaf":
+		// The server proves possession of a key of its own (a self-signed certificate, with or
+		// without the CA flag) and appends the genuine node certificate, which is public: what
+		// must be verified is the certificate whose key the handshake proved, i.e. the first.
+		_, genuine := mintCert(spec, leafKey, p.caCert, p.caKey, 1000)
+		impKey := c19key(6)
+		imp := spec
+		imp.isCA = kind == "impostor-ca-then-genuine-leaf"
+		_, impDER := mintCert(imp, impKey, nil, nil, 2000)
+		return &tls.Certificate{Certificate: [][]byte{impDER, genuine}, PrivateKey: impKey}
 	}
 	_, der := mintCert(spec, leafKey, signer, signerKey, 1000)
 	return &tls.Certificate{Certificate: append([][]byte{der}, chain...), PrivateKey: leafKey}
